@@ -3,7 +3,7 @@ CONSTANTS
   Class = "buf"
   Ideal = FALSE
   KSet = {"n"}
-  NW <- W11
+  NW <- W01
   NR <- W11
   NC <- W11
   WMax = 3
